@@ -32,6 +32,7 @@ import ast
 from binascii import unhexlify
 import calendar
 from collections import namedtuple
+import datetime
 from decimal import Decimal
 import io
 from itertools import chain
@@ -642,8 +643,8 @@ class DateType(_CassandraType):
 
     @staticmethod
     def deserialize(byts, protocol_version):
-        timestamp = int64_unpack(byts) / 1000.0
-        return util.datetime_from_timestamp(timestamp)
+        # integer arithmetic: going through float seconds loses microseconds for dates far from 1970
+        return util.DATETIME_EPOC + datetime.timedelta(milliseconds=int64_unpack(byts))
 
     @staticmethod
     def serialize(v, protocol_version):
